@@ -158,6 +158,9 @@ def run(ctx):
         if T in types:
             ctx.guard("legacy", T, lambda: objects.check_legacy_digest(ctx, P, T, "C09"))
     ctx.guard("hmac", "Mac", lambda: objects.check_hmac_mac(ctx, P))
+    # "behaves like a freshly constructed one with the same key": the stored i_key / o_key must be the RFC 2104 pads of
+    # the key for every key length (a key of exactly one block is used as is, not hashed)
+    ctx.guard("hmac-keys", "expand/derive/create", lambda: objects.check_hmac_keys(ctx, P))
     ctx.guard("poly1305", "Mac", lambda: check_poly1305(ctx, P))
     for mod in ("blake2b", "blake2s"):
         ctx.guard("blake2-mac", mod, lambda: check_blake2_mac(ctx, P, mod))
